@@ -13,7 +13,12 @@ ASSUME = ["TLC and the CommunityModules JSON reader are correct",
           "harness/vsched.h serialises the real code at every mutex / atomic / condition-variable operation and at the EVENTPP_VERIF_POINT markers; "
           "behaviour that needs weaker-than-sequentially-consistent memory is not explored",
           "harness/cq_run.cpp records what the real EventQueue did (it contains no expected values)",
-          "schedules: exhaustive up to the stated preemption bound where the evidence says dfs_exhausted_within_bound, sampled otherwise"]
+          "schedules: exhaustive up to the stated preemption bound where the evidence says dfs_exhausted_within_bound, sampled otherwise",
+          "stress runs (real threads, shipped std::mutex / SpinLock, ThreadSanitizer) add what the OS scheduler happens to produce; TSan reports other than the "
+          "library's documented unlocked reads (harness/tsan.supp) end the execution with a record no specification accepts"]
+
+STRESS_CQ = [{"source": "cq_stress.cpp", "name": "cq_stress_mutex", "defines": ["W_MUTEX=0"]},
+             {"source": "cq_stress.cpp", "name": "cq_stress_spin", "defines": ["W_MUTEX=1"]}]
 
 CORPUS_D5 = {"module": "ConcQueueMC", "cfg": mc_cfg([1, 2], "SDqnWaiter", defects=["dqn_unlocked"]), "defect": "dqn_unlocked", "scenario": "don,nq,dof|w,pa"}
 CORPUS_PB = {"module": "ConcQueueMC", "cfg": mc_cfg([1, 2], "SPutBack", defects=["putback_end"]), "defect": "putback_end", "scenario": "nq,nq|pi,pa"}
@@ -28,7 +33,9 @@ def c06(tier, seed):
     models = [{"module": "ConcQueueMC", "tag": "2threads", "cfg": mc_cfg([1, 2], "Scen2")}]
     if not quick:
         models.append({"module": "ConcQueueMC", "tag": "3threads", "cfg": mc_cfg([1, 2, 3], "Scen3"), "heap": "16g"})
+    stress_sc = [{"scenario": s} for s in ["nq,nq|pa,pa", "nq,nq,nq|pi,pa", "nq,nq|tk|po,po", "nq,nq|cl|pa", "nq,nq,nq,nq|pu,pa", "nq|nq,tk|pa,pk"]]
     return {"models": models, "runner": RUNNER_CQ, "trace_module": "TraceCQ", "scenarios": scen, "corpus": [CORPUS_PB],
+            "stress_runners": STRESS_CQ, "stress_scenarios": stress_sc,
             "rule": "ConcQueue.tla model-checked over all interleavings of the scenario sets; on the real EventQueue each scenario (producers x consumers "
                     "process/processOne/processIf/processUntil/takeEvent/peekEvent/clearEvents) is explored by depth-first schedule enumeration with a "
                     "preemption bound plus seeded random schedules under the controlled scheduler; every execution's API history is validated by "
@@ -66,7 +73,9 @@ def c11(tier, seed):
     models = [{"module": "ConcQueueMC", "tag": "2threads", "cfg": mc_cfg([1, 2], "Scen2")}]
     if not quick:
         models.append({"module": "ConcQueueMC", "tag": "3threads", "cfg": mc_cfg([1, 2, 3], "Scen3"), "heap": "16g"})
+    stress_sc = [{"scenario": s} for s in ["nq,pa|eq,eq", "nq,nq,po,po|eq,eq", "nq|pa|eq", "nq,tk|eq"]]
     return {"models": models, "runner": RUNNER_CQ, "trace_module": "TraceCQ", "scenarios": scen, "corpus": [CORPUS_EO],
+            "stress_runners": STRESS_CQ, "stress_scenarios": stress_sc,
             "rule": "ConcQueue.tla with emptyQueue as two reads and the history variable 'enqueues finished before the call began'; observer scenarios "
                     "(emptyQueue / waitFor time-out against enqueue + process/processOne/takeEvent/clearEvents) explored on the real EventQueue with "
                     "preemption at every atomic operation and unlocked read; TraceCQ.tla demands: true (or time-out with no DisableQueueNotify) implies "
